@@ -220,7 +220,16 @@ func TestC05Reorg(t *testing.T) {
 
 func TestC05Candidates(t *testing.T) {
 	pbt.Check(t, "C05", func(c *pbt.C) {
-		h := sim.NewHist(c, electionSpec(c), genWorldOpts(c))
+		spec := electionSpec(c)
+		// the "not in the future" clause is measured against the machine's clock (the one value of the node that does not
+		// come from the harness clock): in half of the worlds the chain starts two hours before the present, so that a
+		// momentum stamped one hour ahead is a cheap, precise probe (ticks of a few hours instead of decades)
+		presentDay := c.Bool("presentDayWorld")
+		if presentDay {
+			spec.Timestamp = (time.Now().Unix() - 7200) / 10 * 10
+			c.Class("present-day-world")
+		}
+		h := sim.NewHist(c, spec, genWorldOpts(c))
 		h.Intents = sim.DefaultIntents()
 		grow(c, h, "prefix", c.Int("prefix.m", 2, 10), 12)
 		if h.Dead {
@@ -300,7 +309,18 @@ func TestC05Candidates(t *testing.T) {
 			retime("timestamp-equal-previous", front.TimestampUnix, -1)
 			retime("timestamp-before-previous", front.TimestampUnix-10, -1)
 			retime("timestamp-unaligned", ts+3, -1)
-			retime("far-future", uint64(time.Now().Unix())+uint64(c.Int("future.years", 1, 30))*31536000/10*10, -1)
+			if presentDay {
+				// ahead of the clock by 20 s .. 1 h, signed by the pillar that IS elected for that slot
+				fts := (uint64(time.Now().Unix()) + uint64([]int{20, 60, 600, 3600}[c.Pick("future.ahead", 4)])) / 10 * 10
+				if el, err := b.Cons.GetMomentumProducer(time.Unix(int64(fts), 0)); err == nil && el != nil {
+					for i, kp := range h.W.Keys.Pillars {
+						if kp.Address == *el {
+							retime("future-by-the-pillar-elected-for-that-slot", fts, i)
+							c.Class("future-momentum-by-its-elected-pillar")
+						}
+					}
+				}
+			}
 			for k := 0; k < 3; k++ {
 				// another slot, signed by every candidate pillar: only the pillar elected for THAT slot may pass
 				off := uint64(c.Int("slot.off", 1, 40)) * 10
